@@ -80,6 +80,10 @@ func nalSize(r *rand.Rand, big bool) int {
 	if big && r.Intn(6) == 0 {
 		return []int{65535, 65536, 70000, 100000, 200000, 400 * 1024}[r.Intn(6)]
 	}
+	if big && r.Intn(6) == 0 {
+		// access units whose PES packet (NAL + start codes + AUD + 8/13-byte PES header) straddles 65535
+		return 65490 + r.Intn(60)
+	}
 	if r.Intn(3) == 0 {
 		return 14 + r.Intn(3000)
 	}
